@@ -79,7 +79,7 @@ def build(read):
                     decreases src.len() - j""",
             "after": "proof { assert(src.subrange(0, src.len() as int) =~= src); assert(vals@ =~= pre + src); }"},
     }
-    f = extract.annotate_fn(hdr + body, spec=SPEC, attrs="#[verifier::loop_isolation(false)]\n#[verifier::allow_complex_invariants]", loops=ann)
+    f = extract.annotate_fn(hdr + body, spec=SPEC, attrs="#[verifier::exec_allows_no_decreases_clause]\n#[verifier::loop_isolation(false)]\n#[verifier::allow_complex_invariants]", loops=ann)
     f = extract.rewrite_once(f, "let item = match __ito.next() { Some(__x) => __x, None => break };\n",
                              "let item = match __ito.next() { Some(__x) => __x, None => break };\n proof { i = i + 1; }\n", "outer ghost index")
     f = extract.rewrite_once(f, "let item = match __iti.next() { Some(__x) => __x, None => break };\n",
